@@ -25,6 +25,8 @@
 (*         kept    "yes"/"no": the slices returned by this goroutine's       *)
 (*                 previous keep calls are still bit-for-bit what they were  *)
 (*                 (checked after this call and after a failing call)        *)
+(*         again   "yes"/"no": the call repeated (rep times in all) with the *)
+(*                 very same argument slices gave the same result each time  *)
 (* and wsum {w, n, deviating} closes a goroutine (calls made / not recorded  *)
 (* one by one are all as required iff deviating = 0).                        *)
 EXTENDS CryptoDispatch
@@ -37,6 +39,7 @@ CaseOf(e) ==
   IF e.mut = "pad" THEN b @@ [padV |-> e.padV, padTail |-> e.padTail]
   ELSE IF "seq" \in DOMAIN e THEN b @@ [seq |-> e.seq]
   ELSE IF "conc" \in DOMAIN e THEN b @@ [conc |-> e.conc, keep |-> e.keep]
+  ELSE IF "dst" \in DOMAIN e THEN b @@ [dst |-> e.dst]
   ELSE b
 
 CReset(e) ==
@@ -59,7 +62,8 @@ Why(cs, o) ==
 CCall(c, e) ==
   LET cs == c.cs flip == cs.mut \in Flips seq == IsSeq(cs) res == <<e.outcome, e.rt, e.ref>> IN
   IF IsLive(cs) THEN
-       (IF e.same = "no" THEN Bad(IF cs.conc > 1 THEN "concurrency-dependent" ELSE "history-dependent")
+       (IF e.again = "no" THEN Bad("repeat-dependent")
+        ELSE IF e.same = "no" THEN Bad(IF cs.conc > 1 THEN "concurrency-dependent" ELSE "history-dependent")
         ELSE IF e.kept = "no" THEN Bad("result-overwritten")
         ELSE IF e.outcome \notin Allowed(cs) THEN Bad(Why(cs, e.outcome))
         ELSE IF e.outcome = "ok" /\ e.rt = "no" THEN Bad("roundtrip-failed")
